@@ -455,7 +455,8 @@ impl<K: HKey> Store<K> {
                         Ok(None) => json!("-"),
                         Err(e) => json!(format!("!{}", err_class(&e))),
                     };
-                    for (s, e) in [(1u64, 4u64), (0, 100_000), (7, 299_999)] {
+                    // the last two: the whole value and a window of more than 1 MiB (C01 names get_range among "every read")
+                    for (s, e) in [(1u64, 4u64), (0, 100_000), (7, 299_999), (0, 2_000_000), (5, 1_100_000)] {
                         let v = match cas.get_range(&k, s, e) {
                             Ok(Some(b)) => {
                                 let (c, off, l) = u.locate_slice(&b, &hint);
